@@ -482,6 +482,7 @@ def step (st : DState) (line : String) : DState × String :=
     let dr : Spec.Drawing := { nodes := (lst ns).filterMap pair, clusters := (lst cs).filterMap pair,
                                edges := (lst es).filterMap edge }
     (st, bit (Spec.drawingOK st.h top dr))
+  | ["SPEC", "io_ready", top] => (st, bit (Spec.ioReady st.h top))
   | ["IO", "to_dict", top] => (st, showM (Model.toDict st.h top) printDict)
   | ["IO", "from_dict", fresh, d] => match parseDict d with
     | .ok D => (st, showM (Model.fromDict D fresh) fun r => s!"{r.1} {printHier r.2}")
